@@ -14,10 +14,100 @@ let model_lex src =
   | None -> "OUTOFFUEL"
   | Some ts -> "LEX\t" ^ String.concat ";" (List.map show_token ts)
 
+(* ---------- parse: the AST dump of harness/astdump.go *)
+
+let ni n = string_of_int (int_of_nat n)
+let sb l = string_of_bytes l
+
+let rec dump_expr (e : E.expr) : string =
+  match e with
+  | E.ENull -> "null"
+  | E.EIdent (ln, name) -> Printf.sprintf "(id %s %s)" (ni ln) (sb name)
+  | E.EInt (ln, v) -> Printf.sprintf "(int %s %s)" (ni ln) (sb (E.z_to_dec v))
+  | E.EFloat (ln, lit) -> Printf.sprintf "(float %s %s)" (ni ln) (hexb lit)
+  | E.EStr (ln, v) -> Printf.sprintf "(str %s %s)" (ni ln) (hexb v)
+  | E.ENil ln -> Printf.sprintf "(nil %s)" (ni ln)
+  | E.EBool (ln, b) -> Printf.sprintf "(bool %s %d)" (ni ln) (if b then 1 else 0)
+  | E.EArr (ln, els) ->
+      "(arr " ^ ni ln ^ String.concat "" (List.map (fun x -> " " ^ dump_expr x) els) ^ ")"
+  | E.EObj (ln, pairs) ->
+      let ps = List.map (fun (k, v) -> (sb k, v)) pairs in
+      let ps = List.sort (fun (a, _) (b, _) -> compare a b) ps in
+      "(obj " ^ ni ln
+      ^ String.concat "" (List.map (fun (k, v) -> " (" ^ hex k ^ " " ^ dump_expr v ^ ")") ps)
+      ^ ")"
+  | E.EPrefix (ln, op, r) -> Printf.sprintf "(pre %s %s %s)" (ni ln) (sb op) (dump_expr r)
+  | E.EInfix (ln, op, l, r) ->
+      Printf.sprintf "(in %s %s %s %s)" (ni ln) (sb op) (dump_expr l) (dump_expr r)
+  | E.EPostfix (ln, op, l) -> Printf.sprintf "(post %s %s %s)" (ni ln) (sb op) (dump_expr l)
+  | E.ETernary (ln, c, a, b) ->
+      Printf.sprintf "(tern %s %s %s %s)" (ni ln) (dump_expr c) (dump_expr a) (dump_expr b)
+  | E.EIndex (ln, l, i) -> Printf.sprintf "(idx %s %s %s)" (ni ln) (dump_expr l) (dump_expr i)
+  | E.EDot (ln, l, k) -> Printf.sprintf "(dot %s %s %s)" (ni ln) (dump_expr l) (dump_expr k)
+  | E.ECall (ln, r, f, args) ->
+      "(call " ^ ni ln ^ " " ^ dump_expr r ^ " " ^ sb f
+      ^ String.concat "" (List.map (fun x -> " " ^ dump_expr x) args)
+      ^ ")"
+
+let rec dump_stmt (s : E.stmt) : string =
+  match s with
+  | E.SNull -> "null"
+  | E.SHtml (ln, lit) -> Printf.sprintf "(html %s %s)" (ni ln) (hexb lit)
+  | E.SExpr e -> "(expr " ^ dump_expr e ^ ")"
+  | E.SAssign (ln, name, v) -> Printf.sprintf "(assign %s %s %s)" (ni ln) (sb name) (dump_expr v)
+  | E.SIf (ln, c, cons, alts, alt) ->
+      "(if " ^ ni ln ^ " " ^ dump_expr c ^ " " ^ dump_block (Some cons)
+      ^ String.concat ""
+          (List.map (fun (c, b) -> " (elif " ^ dump_expr c ^ " " ^ dump_block (Some b) ^ ")") alts)
+      ^ " " ^ dump_block alt ^ ")"
+  | E.SFor (ln, init, c, post, body, alt) ->
+      Printf.sprintf "(for %s %s %s %s %s %s)" (ni ln) (dump_stmt init) (dump_expr c) (dump_stmt post)
+        (dump_block (Some body)) (dump_block alt)
+  | E.SEach (ln, var, arr, body, alt) ->
+      Printf.sprintf "(each %s %s %s %s %s)" (ni ln) (hexb var) (dump_expr arr) (dump_block (Some body))
+        (dump_block alt)
+  | E.SUse (ln, name, _) -> Printf.sprintf "(use %s %s)" (ni ln) (hexb name)
+  | E.SReserve (ln, _, name, _) -> Printf.sprintf "(reserve %s %s)" (ni ln) (hexb name)
+  | E.SInsert (ln, name, arg, body) ->
+      Printf.sprintf "(insert %s %s %s %s)" (ni ln) (hexb name) (dump_expr arg) (dump_block body)
+  | E.SBreakIf (ln, c) -> Printf.sprintf "(breakif %s %s)" (ni ln) (dump_expr c)
+  | E.SContinueIf (ln, c) -> Printf.sprintf "(continueif %s %s)" (ni ln) (dump_expr c)
+  | E.SBreak -> "(break)"
+  | E.SContinue -> "(continue)"
+  | E.SComponent (ln, _, name, arg, slots, _) ->
+      Printf.sprintf "(component %s %s %s (slots%s))" (ni ln) (hexb name)
+        (match arg with None -> "null" | Some e -> dump_expr e)
+        (String.concat ""
+           (List.map
+              (fun ((sln, sname), body) ->
+                Printf.sprintf " (slot %s %s %s)" (ni sln) (hexb sname) (dump_block (Some body)))
+              slots))
+  | E.SSlot (ln, name, body) -> Printf.sprintf "(slot %s %s %s)" (ni ln) (hexb name) (dump_block body)
+  | E.SDump (ln, args) ->
+      "(dump " ^ ni ln ^ String.concat "" (List.map (fun x -> " " ^ dump_expr x) args) ^ ")"
+
+and dump_block (b : E.stmt list option) : string =
+  match b with
+  | None -> "null"
+  | Some ss -> "(block" ^ String.concat "" (List.map (fun s -> " " ^ dump_stmt s) ss) ^ ")"
+
+let dump_program (p : E.program) : string =
+  "(prog" ^ String.concat "" (List.map (fun s -> " " ^ dump_stmt s) p.E.p_stmts) ^ ")"
+
+let model_parse src =
+  match E.parse_source (bytes_of_string src) with
+  | E.ParsedOk p -> "PARSE\tOK\t" ^ hex (dump_program p)
+  | E.ParseErrors errs ->
+      let ln, msg = List.hd errs in
+      Printf.sprintf "PARSE\tERR\t%d\t%s\t%s" (List.length errs) (ni ln) (hexb msg)
+  | E.ParsePanic -> "PANIC"
+  | E.ParseOutOfFuel -> "OUTOFFUEL"
+
 (* ---------- dispatch *)
 
 let model_obs (f : string list) : string =
   match f with
   | _ :: "lex" :: src :: _ -> model_lex (unhex src)
+  | _ :: "parse" :: src :: _ -> model_parse (unhex src)
   | _ -> "UNMODELLED\tunknown kind"
 
